@@ -258,6 +258,8 @@ class PureEval:
 				from .interp import SEnumerate, SZip
 				if isinstance(v, SEnumerate):
 					inner = self.deref(v.inner)
+					if isinstance(inner, SZip):
+						return SInt(inner.length)
 					return SInt(inner.length) if isinstance(inner, (SArr, SSeq)) else len(inner)
 				if isinstance(v, SZip):
 					return SInt(v.length)
@@ -296,7 +298,12 @@ class PureEval:
 			zs.append(z)
 			self.bound[n] = SInt(z)
 		try:
-			parts = [self.tr(self.ev(a)) for a in node.args[1:-1]]
+			parts = []
+			for a in node.args[1:-1]:
+				pt = self.tr(self.ev(a))
+				if pt is False:
+					return True if kind == 'forall' else False     # empty range: later parts may not even be well defined
+				parts.append(pt)
 			rng = mk_and(*parts)
 			empty = rng is False
 			if not empty and not isinstance(rng, bool):
